@@ -598,16 +598,26 @@ def run_cli(argv, files, want_dump=False, stale_dump=None):
             if stale_dump is not None:      # a dump file left behind by an earlier run
                 with open(dump, "w") as f:
                     f.write(stale_dump)
-        lvl = logging.getLogger().level
+        # as in a fresh command-line process: no handlers yet, so that main's logging.basicConfig takes effect
+        import contextlib
+        root = logging.getLogger()
+        lvl, handlers = root.level, list(root.handlers)
+        for h_ in handlers:
+            root.removeHandler(h_)
         try:
-            nc.main(args)
+            with contextlib.redirect_stderr(io.StringIO()):
+                nc.main(args)
             status = "ok"
         except SystemExit as e:
             status = "exit %s" % e.code
         except Exception as e:  # noqa
             status = "err " + type(e).__name__
         finally:
-            logging.getLogger().setLevel(lvl)
+            for h_ in list(root.handlers):
+                root.removeHandler(h_)
+            for h_ in handlers:
+                root.addHandler(h_)
+            root.setLevel(lvl)
         outs = {}
         if os.path.isdir(outd):
             for root, _, fs in os.walk(outd):
@@ -642,7 +652,7 @@ def cli_scope(res, pid, rng, tier):
             if not fc.prefixes:
                 fc.prefixes = ipgen.nested_cidrs(rng)
         salt = fc.salt
-        argv = ["-a", "-s", salt]
+        argv = ["-a", "-s", salt] + (["-l", ["DEBUG", "WARNING", "ERROR"][r % 3]] if r % 2 == 0 else [])
         hb_given = rng.random() < 0.5
         if hb_given or fc.b4 != 8:
             argv += ["--preserve-host-bits", str(fc.b4)]
